@@ -233,10 +233,10 @@ class ActiveAreaAttribute:
   def set(ttml_element, active_area):
     ttml_element.set(
       ActiveAreaAttribute.qn, 
-      f"{active_area.left_offset * 100:g}% "
-      f"{active_area.top_offset * 100:g}% "
-      f"{active_area.width * 100:g}% "
-      f"{active_area.height * 100:g}%"
+      f"{utils.to_ttml_number(active_area.left_offset * 100)}% "
+      f"{utils.to_ttml_number(active_area.top_offset * 100)}% "
+      f"{utils.to_ttml_number(active_area.width * 100)}% "
+      f"{utils.to_ttml_number(active_area.height * 100)}%"
     )
 
 class TickRateAttribute:
